@@ -273,7 +273,56 @@ def run(ctx):
         ctx.ob(R4, f"{f.name}: draws its sketch from the global legacy generator", direct >= 1,
                "no randomness source found in the routine (sketch is not random, or drawn through an unrecognised path)",
                where=f.where, construct=f"{f.name}: no recognised randomness source", loc=f.loc())
+    _check_sketch_provenance(ctx, prog, f_rand, f_pass)
     ctx.require_instances(R1, n_cfg)
     require_unless_failed(ctx, R2, 3 * n_cfg, (R1, R2))
     require_unless_failed(ctx, R3, 6, (R1,))
     ctx.require_instances(R4, 4)
+
+
+def _check_sketch_provenance(ctx, prog, f_rand, f_pass):
+    """The range finder must be a Gaussian sketch: the matrix that first multiplies X is the UNMODIFIED output of the global
+    np.random.randn embedded as the real part of a quaternion matrix (a sign / rounded / re-used sketch has dependent columns
+    with positive probability, so "exact for every random draw when rank(A) <= R" and orthonormality are lost)."""
+    from qstatic.alg import SQ, Poly, P
+    from qstatic.dom_sym import sym_quat, labelled, wrap, SymArr
+    from .common import new_interp, run_guarded
+    for f, kw in ((f_rand, dict(R=1, oversample=1, n_iter=0)), (f_pass, dict(R=1, oversample=1, n_passes=2))):
+        prods = []
+
+        def s_mm(it, A, B, prods=prods):
+            prods.append((A, B))
+            return labelled(f"mm{len(prods)}", (wrap(A).shape[0], wrap(B).shape[1]), "quat") if False else \
+                sym_quat(f"mm{len(prods)}_", (wrap(A).shape[0], wrap(B).shape[1]))
+
+        def s_qr(it, Y):
+            Y = wrap(Y)
+            r = min(Y.shape)
+            return sym_quat("q", (Y.shape[0], r)), sym_quat("r", (r, Y.shape[1]))
+
+        def s_h(it, A):
+            A = wrap(A)
+            return sym_quat("ah", (A.shape[1], A.shape[0]))
+
+        it, d = new_interp(ctx, summaries={"utils:quat_matmat": s_mm, "decomp.qsvd:qr_qua": s_qr, "utils:quat_hermitian": s_h})
+        X = sym_quat("a", (2, 2))
+        st, out = run_guarded(lambda: it.run(f, [X], kw))
+        ok, why = bool(prods), "no product with the sketch found"
+        if prods:
+            O = wrap(prods[0][1])
+            ok = O.kind == "quat" and O.shape == (2, 2)
+            why = "the first product is not X times an n x (R+P) quaternion sketch"
+            if ok:
+                seen = set()
+                for q in O.reshape(-1):
+                    q = SQ.lift(q)
+                    sa = P(q.c[0]).as_single_atom()
+                    plain = sa is not None and sa[0] == 1 and sa[2] == 1 and isinstance(sa[1], tuple) and str(sa[1][0]).startswith("rnd")
+                    if not (plain and all(c.is_zero() for c in q.c[1:])) or sa[1] in seen:
+                        ok, why = False, ("sketch entries are not the unmodified, pairwise distinct outputs of np.random.randn "
+                                          "(real part) - e.g. sign(), rounding or a reused draw")
+                        break
+                    seen.add(sa[1])
+        ctx.ob("C12.D4.sketch", f"{f.name}: Gaussian sketch is the raw randn draw", ok, why, where=f.where,
+               construct="sketch is not the raw Gaussian draw", loc=f.loc())
+    ctx.require_instances("C12.D4.sketch", 2)
